@@ -10,8 +10,17 @@ XTCE_URI = "http://www.omg.org/space/xtce"
 class W:
     """tiny XML writer; `ns` = ('prefix', name) | ('default',) | ('none',); `deco(rng)` may return comment/whitespace text"""
 
-    def __init__(self, ns=("prefix", "xtce"), deco=None):
+    def __init__(self, ns=("prefix", "xtce"), deco=None, omit_seed=None):
         self.ns, self.deco = ns, deco
+        # with a seed, attributes whose value is the XTCE default are left out at random (the reader must supply the default)
+        import random
+        self._omit = random.Random(omit_seed) if omit_seed is not None else None
+
+    def dflt(self, value, default):
+        """the attribute value, or None (attribute omitted) when it equals the default and this writer omits defaults"""
+        if self._omit is not None and value == default and self._omit.random() < 0.6:
+            return None
+        return value
 
     def tag(self, local):
         return f"{self.ns[1]}:{local}" if self.ns[0] == "prefix" else local
@@ -40,15 +49,15 @@ def num_text(t):
 
 
 def comparison_xml(w, c):
-    return w.el("Comparison", {"parameterRef": c["ref"], "value": c["lit"], "comparisonOperator": c["op"],
-                               "useCalibratedValue": "true" if c["cal"] else "false"})
+    return w.el("Comparison", {"parameterRef": c["ref"], "value": c["lit"], "comparisonOperator": w.dflt(c["op"], "=="),
+                               "useCalibratedValue": w.dflt("true" if c["cal"] else "false", "true")})
 
 
 def condition_xml(w, d):
-    kids = [w.el("ParameterInstanceRef", {"parameterRef": d["left"], "useCalibratedValue": "true" if d["lcal"] else "false"}),
+    kids = [w.el("ParameterInstanceRef", {"parameterRef": d["left"], "useCalibratedValue": w.dflt("true" if d["lcal"] else "false", "true")}),
             w.el("ComparisonOperator", text=d["op"])]
     if "rparam" in d:
-        kids.append(w.el("ParameterInstanceRef", {"parameterRef": d["rparam"], "useCalibratedValue": "true" if d["rcal"] else "false"}))
+        kids.append(w.el("ParameterInstanceRef", {"parameterRef": d["rparam"], "useCalibratedValue": w.dflt("true" if d["rcal"] else "false", "true")}))
     else:
         kids.append(w.el("Value", text=d["rvalue"]))
     return w.el("Condition", children=kids)
@@ -77,7 +86,7 @@ def criteria_xml(w, ks):
 def cal_xml(w, c):
     if c[0] == "poly":
         return w.el("PolynomialCalibrator", children=[w.el("Term", {"exponent": n, "coefficient": num_text(a)}) for a, n in c[1]])
-    return w.el("SplineCalibrator", {"order": c[1], "extrapolate": "true" if c[2] else "false"},
+    return w.el("SplineCalibrator", {"order": w.dflt(c[1], 0), "extrapolate": w.dflt("true" if c[2] else "false", "false")},
                 children=[w.el("SplinePoint", {"raw": num_text(r), "calibrated": num_text(v)}) for r, v in c[3]])
 
 
@@ -87,7 +96,7 @@ def lookup_xml(w, e):
 
 
 def dynamic_xml(w, s):
-    kids = [w.el("ParameterInstanceRef", {"parameterRef": s[1], "useCalibratedValue": "true" if s[2] else "false"})]
+    kids = [w.el("ParameterInstanceRef", {"parameterRef": s[1], "useCalibratedValue": w.dflt("true" if s[2] else "false", "true")})]
     if s[3] is not None:
         kids.append(w.el("LinearAdjustment", {"slope": s[3][0], "intercept": s[3][1]}))
     return w.el("DynamicValue", children=kids)
@@ -104,8 +113,9 @@ def enc_xml(w, e):
                                                     w.el("Calibrator", children=[cal_xml(w, cc["cal"])])]) for cc in e["context"]]))
         isfloat = e["kind"] in ("IEEE754", "IEEE754_1985", "MILSTD_1750A")
         return w.el("FloatDataEncoding" if isfloat else "IntegerDataEncoding",
-                    {"sizeInBits": e["size"], "encoding": e["kind"],
-                     "byteOrder": "leastSignificantByteFirst" if e["order"] == "lsb" else "mostSignificantByteFirst"}, children=kids)
+                    {"sizeInBits": e["size"], "encoding": w.dflt(e["kind"], "IEEE754" if isfloat else "unsigned"),
+                     "byteOrder": w.dflt("leastSignificantByteFirst" if e["order"] == "lsb" else "mostSignificantByteFirst", "mostSignificantByteFirst")},
+                    children=kids)
     if e["t"] == "str":
         s = e["size"]
         extra = []
@@ -154,8 +164,8 @@ def ptype_xml(w, t):
     return w.el(tag, {"name": t["name"]}, children=kids)
 
 
-def document_xml(doc, ns=("prefix", "xtce"), deco=None, header=True, name="SPACE"):
-    w = W(ns, deco)
+def document_xml(doc, ns=("prefix", "xtce"), deco=None, header=True, name="SPACE", omit_seed=None):
+    w = W(ns, deco, omit_seed)
     types, seen = [], set()
     for p in doc["params"].values():
         if p["type"]["name"] not in seen:
